@@ -1,0 +1,14 @@
+//go:build !verif
+// +build !verif
+
+package sml
+
+// Verification hooks are compiled out without the build tag "verif":
+// the counters are an empty struct and the calls are empty inlineable functions.
+
+type verifCounters struct{}
+
+func verifNext(l *lexer)  {}
+func verifState(l *lexer) {}
+func verifPeek(l *lexer)  {}
+func verifDone(l *lexer)  {}
